@@ -53,7 +53,7 @@ def build(kind):
         from pySDC.implementations.hooks.log_restarts import LogRestarts
         vdp = dict(problem_class=vanderpol, problem_params=dict(mu=5.0, newton_tol=1e-10, newton_maxiter=99, u0=np.array([2.0, 0.0])),
                    sweeper_class=generic_implicit, sweeper_params=dict(num_nodes=3, quad_type='RADAU-RIGHT', QI='LU'),
-                   level_params=dict(dt=2 * DT, restol=-1.0 if kind == 'adapt' else 1e-8), step_params=dict(maxiter=3 if kind == 'adapt' else 12))
+                   level_params=dict(dt=2 * DT, restol=-1.0 if kind == 'adapt' else 1e-9), step_params=dict(maxiter=3 if kind == 'adapt' else 4))
         vdp['convergence_controllers'] = {Adaptivity: dict(e_tol=3e-5)} if kind == 'adapt' else {AdaptivityResidual: dict(e_tol=1e-4, max_restarts=3)}
         return 2, dict(cp, mssdc_jac=False, hook_class=[LogStepSize, LogRestarts]), vdp
     raise KeyError(kind)
